@@ -51,13 +51,19 @@ def fileObjs (proj : Str) (defs : Defs) : List (Key × ObjSpec) := defs.map (fun
 /-- coredata.dat, as far as options are concerned -/
 structure Core where
   store : Store
-  optFiles : List (Str × Defs) := []
+  /-- `CoreData.options_files`: per project the recorded option file (`none`: there was none; `some false` =
+  meson.options, `some true` = meson_options.txt) and its content (standing for the sha1) -/
+  optFiles : List (Str × Option Bool × Defs) := []
   initialized : List Str := []
   deriving DecidableEq, Repr, Inhabited
 
 structure Dir where
   top : Defs
   sub : Defs
+  /-- which option file of the project exists: `none` = none, `some false` = meson.options, `some true` =
+  meson_options.txt; its declarations are `top` / `sub` (kept while the file is absent, for a later re-creation) -/
+  topFile : Option Bool := some false
+  subFile : Option Bool := some false
   /-- `project('top', default_options: …)`, `project('sub', default_options: …)` and
   `subproject('sub', default_options: …)` of the build files (never edited by a history) -/
   pdoTop : Dict := []
@@ -70,6 +76,10 @@ structure Dir where
   cmdline : Option Dict := none
   intro : Option Store := none
   deriving DecidableEq, Repr, Inhabited
+
+/-- the declarations the interpreter reads: none when the option file does not exist -/
+def Dir.topEff (d : Dir) : Defs := if d.topFile.isSome then d.top else []
+def Dir.subEff (d : Dir) : Defs := if d.subFile.isSome then d.sub else []
 
 /-- the same source tree with an empty build directory -/
 def Dir.emptied (d : Dir) : Dir := { d with core := none, corrupt := false, cmdline := none, intro := none }
@@ -86,6 +96,9 @@ inductive Cmd where
   | editRemove (inSub : Bool) (name : Str)
   /-- coredata.dat is damaged (truncated) behind meson's back -/
   | corrupt
+  /-- delete (`none`), re-create or rename (`some false` = meson.options, `some true` = meson_options.txt) the option
+  file of the top-level project / the subproject -/
+  | fileSet (inSub : Bool) (f : Option Bool)
   deriving Repr, Inhabited
 
 /-- what the user sees: exit status, and for a (re)configuration the `get_option()` values the build files read -/
@@ -100,7 +113,8 @@ def Out.isOk : Out → Bool
 
 /-! ## interpretation of the test tree -/
 
-/-- `InterpreterBase._load_option_file` (the file always exists in the test tree) -/
+/-- `InterpreterBase._load_option_file`: `update_project_options(oi.options, proj)`; for a missing option file the
+call is made with no declarations (`defs = []`) — emptiness is not special-cased anywhere -/
 def loadOptionFile (proj : Str) (defs : Defs) : M Unit := do
   let os ← ofExcept (mkObjs (fileObjs proj defs))
   updateProjectOptions proj os
@@ -127,28 +141,38 @@ structure Interp where
   late : Bool
   deriving Repr, Inhabited
 
+/-- the `default_options` entries the generated build files carry: those naming an option the option file declares
+(and every `sub:…` / builtin entry) -/
+def presentPdo (defs : Defs) (pdo : Dict) : Dict :=
+  pdo.filter (fun p => p.1.sub.isSome || defs.any (fun q => q.1 == p.1.name))
+
+/-- `if get_option(n) … endif` is generated only when the option file declares `n` -/
+def condIfDeclared (defs : Defs) (proj name : Str) : M Bool :=
+  if defs.any (fun q => q.1 == name) then condOption proj name else M.pure false
+
 /-- `intr.run()` on the test tree as a store computation -/
 def interpProg (first : Bool) (initialized : List Str) (top sub : Defs) (pdoTop pdoSub spcall cmd : Dict) :
     M (List (Str × Str × Val) × Bool) := do
   -- project('top'): option file, then (first invocation only) default_options and the command line
   loadOptionFile [] top
-  if first then initTop pdoTop cmd [] else M.pure ()
+  if first then initTop (presentPdo top pdoTop) cmd [] else M.pure ()
   let m1 ← readAll [] (top.map (·.1) ++ [sWarningLevel])
-  let boom ← condOption [] sBoom
+  let boom ← condIfDeclared top [] sBoom
   if boom then fail .meson else M.pure ()
-  let late ← condOption [] sBoomLate
+  let late ← condIfDeclared top [] sBoomLate
   -- subproject('sub')
   loadOptionFile sSub sub
-  if first || !(initialized.contains sSub) then initSub sSub spcall pdoSub cmd [] else M.pure ()
+  if first || !(initialized.contains sSub) then initSub sSub (presentPdo sub spcall) (presentPdo sub pdoSub) cmd [] else M.pure ()
   let m2 ← readAll sSub (sub.map (·.1) ++ [sWarningLevel])
   M.pure (m1 ++ m2, late)
 
 def interpret (first : Bool) (c : Core) (d : Dir) (cmd : Dict) : Except Err Interp :=
-  let top := d.top
-  let sub := d.sub
+  let top := d.topEff
+  let sub := d.subEff
   match interpProg first c.initialized top sub d.pdoTop d.pdoSub d.spcall cmd c.store with
   | (.ok (msgs, late), s') =>
-    .ok { core := { store := s', optFiles := [([], top), (sSub, sub)], initialized := setAdd sSub c.initialized },
+    .ok { core := { store := s', optFiles := [([], d.topFile, top), (sSub, d.subFile, sub)],
+                    initialized := setAdd sSub c.initialized },
           msgs := msgs, late := late }
   | (.error e, _) => .error e
 
@@ -221,17 +245,25 @@ def reconfigure (d : Dir) (c : Core) (newD : Dict) : Dir × Out :=
   | (.error e, _) => (d, .failed e false)
   | (.ok _, s1) => commitReconf d newD (userOpts d newD) (interpret false { c with store := s1 } d (userOpts d newD))
 
-/-- `Conf.__init__`: reload every option file whose recorded hash differs from the file on disk -/
-def reloadChanged (d : Dir) : List (Str × Defs) → M (List (Str × Defs))
+/-- `Conf.__init__` (mconf.py:92-114), one entry of `options_files`: when the recorded file still exists it is
+re-read if its hash differs; otherwise (no file recorded, or the recorded path is gone: deleted or renamed) mconf
+looks for `meson.options` / `meson_options.txt` **in the top-level source directory** — also for a subproject — and
+re-reads that with the entry's subproject name, or calls `update_project_options({}, sub)` when there is none -/
+def reloadChanged (d : Dir) : List (Str × Option Bool × Defs) → M (List (Str × Option Bool × Defs))
   | [] => M.pure []
-  | (p, rec) :: r =>
+  | (p, recF, rec) :: r =>
+    let curF := if p == [] then d.topFile else d.subFile
     let cur := if p == [] then d.top else d.sub
-    if cur != rec then
-      M.bind (loadOptionFile p cur) (fun _ => M.bind (reloadChanged d r) (fun l => M.pure ((p, cur) :: l)))
-    else M.bind (reloadChanged d r) (fun l => M.pure ((p, rec) :: l))
+    if recF.isSome && curF == recF then
+      if cur != rec then
+        M.bind (loadOptionFile p cur) (fun _ => M.bind (reloadChanged d r) (fun l => M.pure ((p, recF, cur) :: l)))
+      else M.bind (reloadChanged d r) (fun l => M.pure ((p, recF, rec) :: l))
+    else
+      M.bind (loadOptionFile p d.topEff) (fun _ => M.bind (reloadChanged d r) (fun l =>
+        M.pure ((if d.topFile.isSome then (p, d.topFile, d.top) else (p, recF, rec)) :: l)))
 
 /-- `run_impl` after `set_from_configure_command`: `update_cmd_line_file`, and `save` + introspection only when dirty -/
-def commitConf (d : Dir) (c : Core) (args : List (Key × Option Val)) (files : List (Str × Defs)) :
+def commitConf (d : Dir) (c : Core) (args : List (Key × Option Val)) (files : List (Str × Option Bool × Defs)) :
     Except Err Bool × Store → Dir × Out
   | (.error e, _) => (d, .failed e false)
   | (.ok dirty, s2) =>
@@ -274,6 +306,8 @@ def step (d : Dir) : Cmd → Dir × Out
       (match d.cmdline with | some f => mergeCmd f newD | none => newD)
   | .corrupt =>
     (if d.core.isSome || d.corrupt then { d with core := none, corrupt := true } else d, .ok [])
+  | .fileSet inSub f =>
+    (if inSub then { d with subFile := f } else { d with topFile := f }, .ok [])
   | .configure args => configure d args
   | .editSet inSub name sp =>
     (if inSub then { d with sub := editDefs d.sub name (some sp) } else { d with top := editDefs d.top name (some sp) }, .ok [])
